@@ -308,6 +308,34 @@ def instrument_fn(ftext, fspec, ed, base, rules, label, contract_of=None):
                 raise Undecided("%s: statement %d not found (%d statements)" % (label, n, len(stmts)))
             ed.insert(base + st[stmts[n][0]].start, take(key) + "\n")
             continue
+        m = re.match(r"(before|after)_stmt_starting (.+)$", key)
+        if m:
+            # before / after the top-level statement of the fn body whose first tokens are TOKENS (exactly one)
+            want_ = [t_.text for t_ in rsx.sig_tokens(rsx.lex(m.group(2)))]
+            stmts = an.statements(an.body_open, an.body_close)
+            hits_ = [(a_, b_) for (a_, b_, _t) in stmts if [t_.text for t_ in st[a_:a_ + len(want_)]] == want_]
+            if len(hits_) != 1:
+                raise Undecided("%s: lost anchor: %d top-level statements start with `%s`" % (label, len(hits_), m.group(2)))
+            a_, b_ = hits_[0]
+            if m.group(1) == "before":
+                ed.insert(base + st[a_].start, take(key) + "\n")
+            else:
+                ed.insert(base + st[b_].end, "\n" + take(key) + "\n")
+            continue
+        m = re.match(r"(before|after)_stmt_with (\".*\")$", key)
+        if m:
+            # before / after the top-level statement of the fn body that contains the string-literal token LIT
+            # (must be exactly one statement): anchored on the literal, not on a statement ordinal
+            stmts = an.statements(an.body_open, an.body_close)
+            hits_ = [(a_, b_) for (a_, b_, _t) in stmts if any(st[q].kind == "str" and st[q].text == m.group(2) for q in range(a_, b_ + 1))]
+            if len(hits_) != 1:
+                raise Undecided("%s: lost anchor: %d top-level statements contain the literal %s" % (label, len(hits_), m.group(2)))
+            a_, b_ = hits_[0]
+            if m.group(1) == "before":
+                ed.insert(base + st[a_].start, take(key) + "\n")
+            else:
+                ed.insert(base + st[b_].end, "\n" + take(key) + "\n")
+            continue
         m = re.match(r"inner_before_call (\w+)(?: (\d+))?$", key)
         if m:
             # before the innermost statement (in the innermost block) containing the n-th call of NAME
@@ -580,11 +608,12 @@ def build_unit(spec, repo=REPO):
         ed = rsx.Edits(itext)
         label = "%s :: %s" % (it.src, it.path)
         try:
-            if it.contract_of is not None:
-                # rewrite rules only up to the (first) fn body: the body is cut
-                cut_ = itext.index("{", itext.index("fn ")) if item.kind == "fn" else None
-                if cut_ is None:
-                    raise Undecided("%s: use_contract supports fn items and single methods only" % label)
+            if it.contract_of is not None and item.kind == "impl":
+                pass      # a trait impl taken by contract: every listed fn body is cut, nothing else is rewritten
+            elif it.contract_of is not None:
+                # rewrite rules only up to the fn body: the body is cut
+                if item.kind != "fn":
+                    raise Undecided("%s: use_contract supports fn items, single methods and trait impls only" % label)
                 an0_ = rsx.FnAnatomy(itext)
                 cut_ = an0_.st[an0_.body_open].start
                 rsx.apply_rules(itext[:cut_], [r_ for r_ in spec["rules"] if r_ in ("D1",)], ed, regex_map=spec.get("regex_map"))
@@ -632,7 +661,7 @@ def build_unit(spec, repo=REPO):
                     if len(subs) != 1:
                         raise Undecided("lost anchor: %s / fn %s" % (label, fname))
                     sub = subs[0]
-                    instrument_fn(text[sub.start:sub.end], fs, ed, sub.start - start, spec["rules"], label + " / fn " + fname)
+                    instrument_fn(text[sub.start:sub.end], fs, ed, sub.start - start, spec["rules"], label + " / fn " + fname, contract_of=it.contract_of)
             elif it.fns and any(f.sites or f.result for f in it.fns.values()):
                 raise Undecided("%s: fn sites on a %s item" % (label, item.kind))
         except (rsx.LexError, AssertionError, IndexError) as e:
@@ -852,6 +881,14 @@ def classify(res, g):
                 if s["origin"]["where"].startswith("source"):
                     break
         rec["item"] = item
+        rec["amble_fn"] = None
+        if item is None:
+            # a lemma / theorem of a preamble or postamble: name it by the enclosing fn
+            offs = [s_["byte_start"] for s_ in spans if s_.get("is_primary") and "byte_start" in s_] or [s_["byte_start"] for s_ in spans if "byte_start" in s_]
+            if offs:
+                ms_ = list(re.finditer(r"\bfn\s+(\w+)", g.text[:offs[0]]))
+                if ms_:
+                    rec["amble_fn"] = ms_[-1].group(1)
         rec["rendered"] = d.get("rendered", "")
         fails.append(rec)
     verified = errors = None
@@ -873,7 +910,23 @@ def obligation_id(f):
     """stable name of a failed obligation: item + message + text of the contract clause (or source line)"""
     prim = [s for s in f["spans"] if s["primary"]] or f["spans"]
     clause = re.sub(r"\s+", " ", prim[0]["text"]).strip() if prim else ""
-    return "%s | %s | %s" % (f["item"], f["message"], clause[:160])
+    label = f["item"] if f["item"] else ("lemma %s" % f["amble_fn"] if f.get("amble_fn") else None)
+    return "%s | %s | %s" % (label, f["message"], clause[:160])
+
+
+def is_hint_failure(f):
+    """A failed `assert` that the sidecar / a preamble injected and that carries no property tag cNN(..) is a proof
+    *hint*: its failure says the proof script no longer fits the code (undecided), not that a property is violated.
+    Deciding internal obligations are written assert(cNN(..)); asserts of the source itself are obligations."""
+    if f["message"] != "assertion failed":
+        return False
+    prim = [s_ for s_ in f["spans"] if s_["primary"]] or f["spans"]
+    if not prim:
+        return False
+    where = (prim[0].get("origin") or {}).get("where") or ""
+    if where.startswith("source"):
+        return False
+    return re.search(r"\bc\d\d\(", prim[0]["text"]) is None
 
 
 def split_canaries(name, errors, fails, fn_times):
